@@ -45,7 +45,8 @@
 (*   drain loop; "noflush" - no final flush; "nocount" - drop without      *)
 (*   counting; "late" - drop the engine's guarantee that the aggregator is *)
 (*   cancelled only after the last report (Pool.tla: AggCancel =>          *)
-(*   AllInstanceResultsAwaited): shows the guarantee is necessary.         *)
+(*   AllInstanceResultsAwaited): shows the guarantee is necessary;         *)
+(*   "tickresets" - the flush tick consumes the drop counter.              *)
 (***************************************************************************)
 EXTENDS Phout
 
@@ -53,7 +54,7 @@ CONSTANTS K,        \* reporter goroutines 1..K
           M,        \* reports per goroutine
           Q,        \* queue capacity (>= 1)
           Mode,     \* "block" (phout, log) | "drop" (encoder aggregators) | "discard" (aggregator.NewDiscard)
-          Bug,      \* "none" | "nodrain" | "noflush" | "nocount" | "late"
+          Bug,      \* "none" | "nodrain" | "noflush" | "nocount" | "late" | "tickresets"
           SinkFaults, \* TRUE: the sink may fail once (and, being a full disk, keeps failing)
           ErrIgnored  \* statements of Run that may ignore a sink error: subset of {"tick", "final", "close"}
 
@@ -149,7 +150,10 @@ Tick     == /\ apc = "loop" /\ (buf # <<>> \/ werr)
                \/ /\ WriteFails(Len(buf))
                   /\ \/ MayIgnore("tick") /\ UNCHANGED <<apc, runerr>>          \* `_ = a.writer.Flush()`
                      \/ Looks("tick") /\ apc' = "flush" /\ runerr' = TRUE      \* `err = encoder.Flush(); if err != nil { return }`
-            /\ UNCHANGED <<made, queue, dropped, lost, cancelled, closed, result>>
+            \* Bug "tickresets": something on the flush tick reads the drop counter destructively (seed C06-9: DroppedErr
+            \* with Swap(0) + a periodic overflow warning)
+            /\ dropped' = IF Bug = "tickresets" THEN 0 ELSE dropped
+            /\ UNCHANGED <<made, queue, lost, cancelled, closed, result>>
 \* bufio spills a prefix when the buffer is full (inside Write: its error is always returned by handle)
 Spill    == /\ apc \in {"loop", "drain"} /\ buf # <<>>
             /\ \/ WriteOK(1) /\ UNCHANGED <<apc, runerr>>
@@ -226,7 +230,7 @@ NoSilentLoss ==
 \* without a sink error is exact, a failed run (it returned early: later reports find a dead queue) never
 \* counts more drops than happened
 FailedRunStillCounts ==
-    (apc = "done" /\ Mode # "discard" /\ Bug # "nocount") =>
+    (apc = "done" /\ Mode # "discard" /\ Bug \notin {"nocount", "tickresets"}) =>
         IF runerr THEN result <= Cardinality(lost) ELSE result = Cardinality(lost)
 \* the discard aggregator writes nothing, counts nothing, and its Report is always possible
 DiscardIsInert == Mode = "discard" => /\ queue = <<>> /\ buf = <<>> /\ disk = <<>> /\ dropped = 0
